@@ -170,6 +170,7 @@ func main() {
 		fmt.Println(s.Analysed, time.Since(t0))
 	case "lg":
 		rules.LA(rc)
+		rules.P3map(rc)
 		for _, pr := range []string{"C04", "C08", "C09", "C14", "C16", "C20", "C10"} {
 			s.Config = pr
 			rules.LGuards(rc, pr)
